@@ -71,6 +71,8 @@ type Strategy struct {
 	// Unsolicited[j]: in the apologizing phase the keyper sends an apology naming keyper j as accuser, with a value
 	// that does not verify, although j never accused it (the chain accepts such a message).
 	Unsolicited []bool
+	// OnlyFirstEon: the deviations apply to the first key generation only; later ones are left alone.
+	OnlyFirstEon bool
 	// EvalFirst puts the polynomial evaluations on the chain before the commitment (same block or
 	// earlier), which the honest sender never does.
 	EvalFirst bool
@@ -250,6 +252,17 @@ func bumpBytes(b []byte) []byte {
 func (r *Rig) mutate(k *Keyper, msg *shmsg.Message) []outMsg {
 	s := k.Strategy
 	msg = proto.Clone(msg).(*shmsg.Message)
+	if s.OnlyFirstEon {
+		first, any := uint64(0), false
+		for e := range r.EonStart {
+			if !any || e < first {
+				first, any = e, true
+			}
+		}
+		if any && eonOf(msg) != first {
+			return []outMsg{{msg, false, false}}
+		}
+	}
 	switch {
 	case msg.GetPolyCommitment() != nil:
 		pc := msg.GetPolyCommitment()
